@@ -247,20 +247,28 @@ func Aggregate(method int, known []float64) float64 {
 	panic("bad method")
 }
 
-// XffVerdict compares known/total with xff: +1 store, -1 skip, 0 ambiguous
-// (exact rational and float32 comparison disagree).
+// XffVerdict compares the known fraction with xFilesFactor: +1 store, -1 skip.
+//
+// The fraction is computed in float32, the precision of the header field: that
+// is what "xFilesFactor 0.1 with 1 of 10 slots known" means to a user (stored)
+// and what both Whisper implementations do (python-whisper's struct float,
+// go-whisper's float32 division). An exact rational comparison would skip at
+// such a boundary because float32(0.1) is slightly larger than 1/10; Boundary
+// reports whether the two readings differ, so that runs can count how often
+// the boundary was exercised.
 func XffVerdict(known, total int64, xff float64) int {
-	// exact: known/total >= xff  <=>  known >= xff*total (xff is a float32 value,
-	// products with small integers are exact in float64 for the sizes used)
+	if float32(known)/float32(total) >= float32(xff) {
+		return 1
+	}
+	return -1
+}
+
+// XffBoundary reports whether the exact rational comparison known/total >= xff
+// and the float32 comparison disagree.
+func XffBoundary(known, total int64, xff float64) bool {
 	exact := float64(known) >= xff*float64(total)
 	f32 := float32(known)/float32(total) >= float32(xff)
-	if exact == f32 {
-		if exact {
-			return 1
-		}
-		return -1
-	}
-	return 0
+	return exact != f32
 }
 
 // PropStep is the model's verdict for one touched coarse interval.
@@ -268,7 +276,7 @@ type PropStep struct {
 	T       int64
 	Known   int
 	Total   int
-	Verdict int // +1 store, -1 skip, 0 ambiguous
+	Verdict int // +1 store, -1 skip
 	Value   float64
 }
 
